@@ -84,6 +84,41 @@ func c13Gen(r *rand.Rand, tier string) []spec.Case {
 			add(f, seed, "nil", "nil-hash", sum)
 		}
 	}
+	// files whose digest ends in a zero byte (and, for sha256, in two): every proper prefix of such a digest
+	// is still a differing checksum, also the prefix that only lacks the zero tail
+	for _, h := range hashes {
+		for _, zeros := range []int{1, 2} {
+			if zeros == 2 && h != "sha256" {
+				continue
+			}
+			f := file{"script", 200}
+			seed, found := int64(-1), false
+			for sd := int64(0); sd < 400000 && !found; sd++ {
+				if sd >= 0xD800 && sd <= 0xDFFF {
+					continue // not valid runes: C13File would see the same replacement character for all of them
+				}
+				d := c13Digest(h, spec.C13File(f.kind, f.size, sd))
+				found = true
+				for k := 1; k <= zeros; k++ {
+					if d[len(d)-k] != 0 {
+						found = false
+					}
+				}
+				if found {
+					seed = sd
+				}
+			}
+			if !found {
+				continue
+			}
+			sum := c13Digest(h, spec.C13File(f.kind, f.size, seed))
+			add(f, seed, h, "exact", sum)
+			for n := 1; n < len(sum); n++ {
+				add(f, seed, h, "prefix-of-zero-tailed-digest", sum[:n])
+			}
+			add(f, seed, h, "trailing-zeros", append(append([]byte(nil), sum...), 0))
+		}
+	}
 	// histories: several launches of one path sharing one SecureConfig value, the file replaced in between
 	hists := [][]string{{"good", "good"}, {"good", "tampered"}, {"tampered", "good"}, {"good", "tampered", "good"}, {"good", "good", "tampered"}, {"tampered", "tampered", "good", "tampered"}}
 	for _, h := range hashes {
@@ -299,7 +334,7 @@ func init() {
 		ID: "C13", Level: "exploration", Race: true, TestName: "TestC13",
 		Gen: c13Gen, Batch: 300, Children: 6, PerCase: 500 * time.Millisecond, Base: 90 * time.Second,
 		Judge: c13Judge, Finish: c13Finish,
-		Rule:        "cases = (file content: executable scripts of several sizes around the 64-byte block boundary and non-executable junk incl. empty; hash function; checksum variant: exact, every single-bit flip [exhaustive for the first file, sampled elsewhere in quick, exhaustive everywhere in thorough], every proper prefix, suffixes, 1-8 trailing bytes (random / zero), doubled, leading byte, empty, nil, zeros, digest of another file, nil Hash, missing binary) plus histories of 2-4 launches of one path that share one SecureConfig value while the file is atomically replaced (good/tampered) in between, with and without the caller resetting the hash; plus command paths on which lexical and kernel resolution differ (<dir>/a/link/../bin through a directory symlink) or that are symlinks, relative command paths, and a relative path combined with an argv[0] that names the other file by its absolute path, with the approved and a tampered file on either side. The script writes a launch marker as its first action; the oracle computes the digest independently and requires launched <=> checksum == H(file) plus the corresponding error. Class = variant/hash/file",
+		Rule:        "cases = (file content: executable scripts of several sizes around the 64-byte block boundary and non-executable junk incl. empty; hash function; checksum variant: exact, every single-bit flip [exhaustive for the first file, sampled elsewhere in quick, exhaustive everywhere in thorough], every proper prefix, suffixes, 1-8 trailing bytes (random / zero), doubled, leading byte, empty, nil, zeros, digest of another file, nil Hash, missing binary; also for files chosen so that their digest ends in one or two zero bytes) plus histories of 2-4 launches of one path that share one SecureConfig value while the file is atomically replaced (good/tampered) in between, with and without the caller resetting the hash; plus command paths on which lexical and kernel resolution differ (<dir>/a/link/../bin through a directory symlink) or that are symlinks, relative command paths, and a relative path combined with an argv[0] that names the other file by its absolute path, with the approved and a tampered file on either side. The script writes a launch marker as its first action; the oracle computes the digest independently and requires launched <=> checksum == H(file) plus the corresponding error. Class = variant/hash/file",
 		Assumptions: []string{"'the corresponding error' is matched by errors.Is or message containment (Start wraps two of the sentinels with %s)", "for non-executable junk files 'executed' means exec was attempted (Cmd.Process set or a non-checksum error)"},
 	})
 }
